@@ -251,7 +251,7 @@ func (s *Solver) solve(ob *Obligation) {
 	for _, x := range results {
 		if x.st == want {
 			res.Status, res.Backend, res.Seconds = x.st, x.name, total+x.secs
-			if !ob.MustSat {
+			if !ob.MustSat && os.Getenv("FVC_KEEP") == "" {
 				os.Remove(file)
 			}
 			return
